@@ -4,6 +4,7 @@ import PartituraModel.Model.NoteArrayMaps
 import PartituraModel.Model.NoteArrayBack
 import PartituraModel.Model.NoteArrayTs
 import PartituraModel.Model.NoteArrayF64
+import PartituraModel.Model.NoteArrayTsF
 
 open Wire NoteArray
 
@@ -128,6 +129,26 @@ def restEntry (entry : String) (u : Bool) (o : Opts) (c : Bool) (items : List Tr
   | "ensure_score" => some (ensureRestArray u o c (.score items))
   | _ => none
 
+/-- the same entry points with the float cells as stored (binary64 evaluation, binary32 store): round 6 -/
+def noteEntryF (entry : String) (u : Bool) (o : Opts) (items : List Tree) : Option Res :=
+  match entry with
+  | "score" => some (ensureNoteArrayF u o (.score items))
+  | "ensure_score" => some (ensureNoteArrayF u o (.score items))
+  | "list" => some (.ofOption true (partListRowsW rowsF u o items))
+  | "ensure_list" => some (ensureNoteArrayF u o (.list items))
+  | "group" => some (ensureNoteArrayF u o (.group items))
+  | "ensure_group" => some (ensureNoteArrayF u o (.group items))
+  | _ => none
+
+def restEntryF (entry : String) (u : Bool) (o : Opts) (c : Bool) (items : List Tree) : Option Res :=
+  match entry with
+  | "func" => some (.ofOption false (restListRowsW restRowsFC u o c items))
+  | "ensure_list" => some (ensureRestArrayF u o c (.list items))
+  | "group" => some (ensureRestArrayF u o c (.group items))
+  | "ensure_group" => some (ensureRestArrayF u o c (.group items))
+  | "ensure_score" => some (ensureRestArrayF u o c (.score items))
+  | _ => none
+
 def fmtTriple (x : Int × Int × Int) : String := fmtTuple [fmtInt x.1, fmtInt x.2.1, fmtInt x.2.2]
 
 def leTriple (a b : Int × Int × Int) : Bool :=
@@ -184,6 +205,31 @@ def handle (ts : List String) : String :=
     match run (do let o ← parseOpts; let p ← parsePart; pure (o, p)) rest with
     | none => "bad-request"
     | some (o, p) => fmtRes o (.ofOption false (restRowsF p.1 p.2 { o with divs := false }))
+  | "restsfc" :: rest =>
+    -- collapse=True on the stored array: float32 sums of the stored durations
+    match run (do let c ← bool; let o ← parseOpts; let p ← parsePart; pure (c, o, p)) rest with
+    | none => "bad-request"
+    | some (c, o, p) => fmtRes o (ensureRestArrayF false o c (.part p.1 p.2))
+  | "scoref" :: entry :: rest =>
+    match run (do
+        let u ← bool; let o ← parseOpts
+        let n ← nat; let items ← rep parseTree n
+        pure (u, o, items)) rest with
+    | none => "bad-request"
+    | some (u, o, items) =>
+      match noteEntryF entry u o items with
+      | none => "bad-request"
+      | some r => fmtRes o r
+  | "restlistf" :: entry :: rest =>
+    match run (do
+        let u ← bool; let c ← bool; let o ← parseOpts
+        let n ← nat; let items ← rep parseTree n
+        pure (u, c, o, items)) rest with
+    | none => "bad-request"
+    | some (u, c, o, items) =>
+      match restEntryF entry u o c items with
+      | none => "bad-request"
+      | some r => fmtRes o r
   | "f64" :: rest =>
     match run rat rest with
     | none => "bad-request"
@@ -269,6 +315,19 @@ def handle (ts : List String) : String :=
     | none => "bad-request"
     | some (hb, hd, ht, hk, d, tsl, est, san, a) =>
       match fromArrayX hb hd ht hk a d tsl est san with
+      | .error _ => "err"
+      | .ok x => fmtXOut x
+  | "invxf" :: rest =>
+    -- the same with the float cells of the table that comes back as numpy stores them (round 6)
+    match run (do
+        let hb ← bool; let hd ← bool; let ht ← bool; let hk ← bool
+        let d ← opt nat
+        let tsl ← list (do let s ← int; let b ← int; let bt ← int; pure (s, b, bt))
+        let est ← bool; let san ← bool
+        let a ← list parseXRow; pure (hb, hd, ht, hk, d, tsl, est, san, a)) rest with
+    | none => "bad-request"
+    | some (hb, hd, ht, hk, d, tsl, est, san, a) =>
+      match fromArrayXF hb hd ht hk a d tsl est san with
       | .error _ => "err"
       | .ok x => fmtXOut x
   | "dfb" :: rest =>
